@@ -95,8 +95,15 @@ def c17_task(n_targets):
         lk = files["Monorail.lock"]
         pos = lk.find(b'":"') + 3
         edits.append(("lock:checksum-digit", "Monorail.lock", lk[:pos] + (b"0" if lk[pos:pos + 1] != b"0" else b"1") + lk[pos + 1:]))
+        edits.append(("source:deleted", "Monorail.src.json", None))
+        edits.append(("lock:deleted", "Monorail.lock", None))
+        edits.append(("lock:empty", "Monorail.lock", b""))
+        edits.append(("lock:other-checksum", "Monorail.lock", b'{"checksum":"' + b"0" * 64 + b'"}'))
         for ename, fname, data in edits:
-            open(r.path(fname), "wb").write(data)
+            if data is None:
+                os.unlink(r.path(fname))
+            else:
+                open(r.path(fname), "wb").write(data)
             if ename.endswith("old-mtime"):
                 os.utime(r.path(fname), (1_000_000_000, 1_000_000_000))
             if ename.endswith("touch-generated"):
